@@ -14,6 +14,7 @@ RULE = ('Well-typed expressions and predicates from the typed generator (depth <
         'small-scope shape with <= 3 operators over leaves {x, y, @A.v, 0, 1, 2} / {p, q, @A.b, True, False} are '
         'simplified by the real function; input and output are evaluated on a valuation grid. Non-trivial = simplify '
         'returned an object that is not the input (a rule fired); distinct = distinct input shape.')
+RULE_ADDED = ' Since the seeding rounds: exhaustive sum/prod/len/max/min over constant ranges with bounds -3..3 and all exclusion flags; valuations at float discontinuities are not judged.'
 ASSUMPTIONS = [
     'the reference evaluator (DESIGN.md 4.1) is my reading of an informally documented language; where the reading '
     'is open (sets as sets or lists under len/sum/prod, int() truncation or floor) a violation needs disagreement '
